@@ -91,6 +91,13 @@ func execJob(job *Job) *JobResult {
 	eng.IntMode = job.IntMode
 	eng.MapOrder = job.MapOrder
 	for real, h := range job.Overrides {
+		// "?name": optional — only when the repo (still) has that function
+		if strings.HasPrefix(real, "?") {
+			real = real[1:]
+			if !l.hasFunc(real) {
+				continue
+			}
+		}
 		interp.Override(real, l.fn(h))
 	}
 	entry := l.fn(job.Func)
